@@ -1,5 +1,5 @@
 //! C15 — segment/TSS descriptors and the TSS have the architectural encoding.
-use crate::engine::{CaseResult, Obs, Run};
+use crate::engine::{outcome, CaseResult, Obs, Outcome, Run};
 use crate::gen::*;
 use crate::{ensure, ensure_eq};
 use proptest::prelude::*;
@@ -117,6 +117,22 @@ fn presets_case(_: &u8, obs: &mut Obs) -> CaseResult {
     };
     ensure_eq!(a, b, "tss_segment vs tss_segment_unchecked");
     ensure_eq!(decode_sys(a.0, a.1).base, &TSS as *const _ as u64, "tss_segment base");
+    // the descriptor is a function of the address only: a TSS whose public fields have been filled in
+    // (stacks, I/O-map base incl. the "no I/O bitmap" idiom 0xffff) gives limit 0x67 all the same
+    for iomap in [0u16, 0x67, 0x68, 0x80, 0xffff] {
+        let mut t = TaskStateSegment::new();
+        t.iomap_base = iomap;
+        t.privilege_stack_table[0] = VirtAddr::new(0xffff_8000_0000_1000);
+        t.interrupt_stack_table[3] = VirtAddr::new(0x7fff_ffff_f000);
+        let t: &'static TaskStateSegment = Box::leak(Box::new(t));
+        let (a, b) = match (outcome(|| Descriptor::tss_segment(t)), unsafe { Descriptor::tss_segment_unchecked(t) }) {
+            (Outcome::Ret(Descriptor::SystemSegment(a, b)), Descriptor::SystemSegment(c, d)) => ((a, b), (c, d)),
+            (r, _) => return Err(format!("tss_segment of a TSS with iomap_base {:#x}: {:?}", iomap, r.ret().map(|_| "not a system descriptor"))),
+        };
+        ensure_eq!(a, b, "tss_segment vs tss_segment_unchecked for a TSS with iomap_base {:#x}", iomap);
+        let d = decode_sys(a.0, a.1);
+        ensure_eq!((d.base, d.limit), (t as *const TaskStateSegment as u64, 0x67u32), "tss_segment(base, limit) for a TSS with iomap_base {:#x}", iomap);
+    }
     Ok(())
 }
 
